@@ -39,15 +39,40 @@ impl Doc {
         (1..=self.lines).map(|k| text(letter, self.tok, self.lines, k)).collect::<Vec<_>>().join("\n")
     }
 }
+impl Doc {
+    /// the rendering reaches the formatter in different fragmentations: as one string, line by line with
+    /// separate newlines, or character by character
+    fn emit(&self, f: &mut fmt::Formatter<'_>, letter: char) -> fmt::Result {
+        let txt = self.render(letter);
+        match self.tok % 4 {
+            0 | 1 => f.write_str(&txt),
+            2 => {
+                for (i, l) in txt.split('\n').enumerate() {
+                    if i > 0 {
+                        f.write_str("\n")?;
+                    }
+                    f.write_str(l)?;
+                }
+                Ok(())
+            }
+            _ => {
+                for ch in txt.chars() {
+                    fmt::Write::write_char(f, ch)?;
+                }
+                Ok(())
+            }
+        }
+    }
+}
 impl fmt::Display for Doc {
     fn fmt(&self, f: &mut fmt::Formatter<'_>) -> fmt::Result {
-        f.write_str(&self.render(if f.alternate() { 'D' } else { 'd' }))
+        self.emit(f, if f.alternate() { 'D' } else { 'd' })
     }
 }
 // hand-written Debug: the four format modes must be distinguishable
 impl fmt::Debug for Doc {
     fn fmt(&self, f: &mut fmt::Formatter<'_>) -> fmt::Result {
-        f.write_str(&self.render(if f.alternate() { 'G' } else { 'g' }))
+        self.emit(f, if f.alternate() { 'G' } else { 'g' })
     }
 }
 
